@@ -87,6 +87,8 @@ def check_shipped(table, s):
 
 
 def replay(case):
+    if case.get('kind') == 'pickle':
+        return []       # (a cross-interpreter finding is re-derived by the run itself, not from a saved case)
     if case.get('kind') == 'shipped':
         return check_shipped(case['table'], case['text'])
     return check_value(from_json(case['c']), case.get('variants', []), case.get('ambiguous', []))
@@ -158,7 +160,59 @@ def _hyp(ctx, n_examples):
     ctx.hypothesis(factory)
 
 
+CHILD = r"""
+import sys, pickle, json
+sys.path.insert(0, sys.argv[1])
+from vlib import env
+from depccg.cat import Category
+cats = pickle.load(sys.stdin.buffer)
+bad = []
+for c in cats:
+    t = str(c)
+    f = Category.parse(t)
+    g = Category.parse('(' + t + ')')
+    if not (f == c) or not (c == f) or not (g == c) or not (c == g) or str(f) != t:
+        bad.append(t)
+print(json.dumps(bad))
+"""
+
+
+def cross_process(ctx, shard):
+    """values that were used here (hashed, compared, printed) and then reached another interpreter by pickle, as
+    the categories of a worker's results do: printing and parsing back still gives an equal category there"""
+    import json
+    import os
+    import pickle
+    import subprocess
+    import sys
+    from vlib import env
+    from vlib.model_cat import to_cat
+    vals = gen_cat.enum_cats('en', 2, bar=True, reduced=True)[shard * 7::97][:150] + \
+        gen_cat.enum_cats('ja', 2, bar=True, reduced=True)[shard * 7::97][:150]
+    cats = [to_cat(m) for m in vals]
+    for c in cats:
+        hash(c)
+        str(c)
+        c == cats[0]
+        {c: 1}
+    e = dict(os.environ, PYTHONHASHSEED=str(2000 + shard), VERIF_REPO=env.REPO)
+    r = subprocess.run([sys.executable, '-c', CHILD, env.VERIF], input=pickle.dumps(cats), capture_output=True, env=e,
+                       timeout=300)
+    if r.returncode != 0:
+        fails = [(f'{PROPERTY}/pickled-value-unusable', f'child interpreter failed on pickled categories: '
+                  f'{r.stderr.decode()[-300:]}')]
+        bad = ['?']
+    else:
+        bad = json.loads(r.stdout.decode().strip().split('\n')[-1])
+        fails = [(f'{PROPERTY}/pickled-value-roundtrip', f'{bad[:3]} received by pickle in another interpreter (hash seed '
+                  f'{2000 + shard}): parsing its printed text back does not give an equal category')] if bad else []
+    ctx.count(len(cats), cls='cross-process-pickle')
+    ctx.notes['cross_process_pickled_values'] = ctx.notes.get('cross_process_pickled_values', 0) + len(cats)
+    ctx.report_direct(fails, {'kind': 'pickle', 'values': [str(b) for b in bad[:5]]})
+
+
 def _shard(ctx, shard, nshards, max_slashes):
+    cross_process(ctx, shard)
     # exhaustive bounded enumeration, strided over shards
     n_enum = 0
     for system in ('en', 'ja'):
